@@ -10,6 +10,7 @@ import (
 	"os"
 	"path/filepath"
 	"sort"
+	"strings"
 	"sync"
 	"time"
 )
@@ -132,6 +133,18 @@ func (c *Case) Sample(v any) {
 
 // Violate records a violation. fingerprint names input class + call site.
 func (c *Case) Violate(fingerprint, what string, detail any) {
+	// A helper process that was given up on after its wall-clock watchdog is not
+	// a verdict (the case-level watchdog, which re-runs a case before it reports
+	// a hang, is the hang detector): inconclusive, and counted.
+	if strings.Contains(what, ChildWatchdogText) {
+		c.Inconclusive(fingerprint + ": " + what)
+		c.Count("child_watchdog_fired", 1)
+		return
+	}
+	if strings.Contains(what, "SQL child is gone") && c.Counter("child_watchdog_fired") > 0 {
+		c.Inconclusive(fingerprint + ": " + what + " (after its watchdog)")
+		return
+	}
 	c.mu.Lock()
 	defer c.mu.Unlock()
 	for _, v := range c.violations {
@@ -147,6 +160,9 @@ func (c *Case) Violate(fingerprint, what string, detail any) {
 		fmt.Printf("  violation %s: %s\n", fingerprint, what)
 	}
 }
+
+// ChildWatchdogText is what a helper process's wall-clock watchdog reports.
+const ChildWatchdogText = "did not answer in time (killed)"
 
 func (c *Case) Violated() bool {
 	c.mu.Lock()
